@@ -104,12 +104,12 @@ func (e *c16Env) quiesce(c *rt.CaseResult, replay map[string]any) bool {
 			continue
 		}
 		stuckSeen = 0
-		if st.Deferred > 0 && st.ChanLen == 0 && st == lastBusy && time.Since(lastChange) > time.Second {
+		if st.Deferred > 0 && st.ChanLen == 0 && st == lastBusy && time.Since(lastChange) > 3*time.Second {
 			// Nothing has moved for a second although the channel is empty. Decide logically: if no
 			// job is running, the channel is empty and the deferred list stays untouched, whoever
 			// holds the flusher role is not flushing (a live flusher sends into a channel with room).
 			// this pool runs only the harness's jobs: no job running and an empty channel mean every
-			// worker is free; sample that three times, 100 ms apart
+			// worker is free; sample that three times, 400 ms apart (after three seconds without any change)
 			idleRounds := 0
 			for round := 0; round < 3; round++ {
 				rt.Beat()
@@ -117,7 +117,7 @@ func (e *c16Env) quiesce(c *rt.CaseResult, replay map[string]any) bool {
 				if e.running.Load() == 0 && now.ChanLen == 0 && now.Deferred >= st.Deferred {
 					idleRounds++
 				}
-				time.Sleep(100 * time.Millisecond)
+				time.Sleep(400 * time.Millisecond)
 			}
 			if idleRounds == 3 {
 				replay["pool_state"] = fmt.Sprintf("%+v", e.pool.VerifState())
